@@ -121,6 +121,58 @@ theorem slater_circuit_structure (n : Nat) (desc : List (List (Option (Nat × Na
 /-- non-vacuity: the full schedule for `n = 4` is such a description (and is not empty) -/
 example : slaterSchedulePairs 4 = [[(2, 3)], [(1, 2)], [(0, 1), (2, 3)], [(1, 2)], [(2, 3)]] := by decide
 
+/-! ## initial-state glue of the primitives (all inputs) -/
+
+/-- `_occupied_orbitals(state, n)`: exactly the big-endian one-bits of `state` -/
+theorem occupied_orbitals_spec (state n j : Nat) :
+    j ∈ occupiedOrbitals state n ↔ j < n ∧ state.testBit (n - 1 - j) = true := by
+  simp [occupiedOrbitals]
+
+/-- after the bit flips of `prepare_slater_determinant` / `_slater_basis_change` exactly the first `nOcc` qubits
+are set: qubit `j < n` ends up occupied (initially occupied XOR flipped) iff `j < nOcc` -/
+theorem slater_flips_spec (n nOcc : Nat) (occ : List Nat) (j : Nat) (hj : j < n) :
+    (occ.contains j != (slaterFlips n nOcc occ).contains j) = decide (j < nOcc) := by
+  have hmem : (slaterFlips n nOcc occ).contains j = (decide (j < nOcc) != occ.contains j) := by
+    rw [Bool.eq_iff_iff]
+    simp only [List.contains_iff_mem, slaterFlips, List.mem_filter, List.mem_range]
+    constructor
+    · intro h; exact h.2
+    · intro h; exact ⟨hj, h⟩
+  rw [hmem]
+  cases occ.contains j <;> cases decide (j < nOcc) <;> rfl
+
+/-- after the bit flips of `_generic_gaussian_circuit` exactly the start orbitals are set -/
+theorem gaussian_flips_spec (n : Nat) (occ start : List Nat) (j : Nat) (hj : j < n) :
+    (occ.contains j != (gaussianFlips n occ start).contains j) = start.contains j := by
+  have hmem : (gaussianFlips n occ start).contains j = (occ.contains j != start.contains j) := by
+    rw [Bool.eq_iff_iff]
+    simp only [List.contains_iff_mem, gaussianFlips, List.mem_filter, List.mem_range]
+    constructor
+    · intro h; exact h.2
+    · intro h; exact ⟨hj, h⟩
+  rw [hmem]
+  cases occ.contains j <;> cases start.contains j <;> rfl
+
+/-- the flips only touch qubits of the register -/
+theorem flips_in_register (n nOcc : Nat) (occ start : List Nat) :
+    (∀ j ∈ slaterFlips n nOcc occ, j < n) ∧ (∀ j ∈ gaussianFlips n occ start, j < n) := by
+  constructor <;> intro j hj
+  · simp only [slaterFlips, List.mem_filter, List.mem_range] at hj; exact hj.1
+  · simp only [gaussianFlips, List.mem_filter, List.mem_range] at hj; exact hj.1
+
+/-- spin-block split: an index is occupied iff it is an occupied up-orbital or (shifted) an occupied down-orbital -/
+theorem split_orbitals_spec (n : Nat) (occ : List Nat) (i : Nat) :
+    (i ∈ (splitOrbitals n occ).1 ↔ i ∈ occ ∧ i < n / 2) ∧
+    (i ∈ (splitOrbitals n occ).2 ↔ i + n / 2 ∈ occ) := by
+  constructor
+  · simp [splitOrbitals]
+  · simp only [splitOrbitals, List.mem_map, List.mem_filter, decide_eq_true_eq]
+    constructor
+    · rintro ⟨a, ⟨ha, hle⟩, rfl⟩
+      have : a - n / 2 + n / 2 = a := by omega
+      rw [this]; exact ha
+    · intro h
+      exact ⟨i + n / 2, ⟨h, by omega⟩, by omega⟩
 /-! ## from the one-particle block to Fock space -/
 
 /-- Lift of the single-particle statements: if an invertible operator `U` conjugates every creation operator
@@ -233,6 +285,14 @@ theorem ffft_is_dft {R : Type} [CommRing R] (w : R) (n : Nat) (hn : 1 ≤ n) (hw
   · intro b _ hb; simp [hb]
   · intro hk'; exact absurd (Finset.mem_range.mpr hk) hk'
 
+/-- The two descriptions of `ffft` the driver exports agree for every size: letting the emitted operations act on
+coefficient vectors (`runFfft`, what `c14.ffftsim*` executes) gives the root of unity raised to the entry of the
+Cooley–Tukey exponent table (`ffftExpTable`, what `c14.ffftexp` returns). -/
+theorem ffft_ops_match_exponent_table {R : Type} [CommRing R] (w : R) (n : Nat) (hn : 1 ≤ n) (hw : w ^ n = 1)
+    (h2 : 2 ∣ n → w ^ (n / 2) = -1) (k j : Nat) (hk : k < n) (hj : j < n) :
+    runFfft (ringOps w) n (ffftOps n) (fun i => if i = k then 1 else 0) j
+      = w ^ (ctExp (primeFactors n n) k j % n) := by
+  rw [ffft_is_dft w n hn hw h2 k j hk hj, ffft_table_is_dft n k j hn hj, pow_mod_of_pow_eq_one w n _ hw, Nat.mul_comm]
 /-- non-vacuity: `w = −1` for two modes (ℤ), `w = −i` for four modes (Gaussian rationals) -/
 example : (1 : Nat) ≤ 1 → (-1 : Int) ^ (2 ^ (1 - 1)) = -1 := by intro _; norm_num
 example : (1 : Nat) ≤ 2 → (⟨0, -1⟩ : GQ) ^ (2 ^ (2 - 1)) = -1 := by
@@ -315,6 +375,22 @@ theorem fswapPow_conjugation (c s : Rat) (h : c * c + s * s = 1) :
   all_goals try linear_combination (-(s * s)) * h
   all_goals try linear_combination (c * s) * h
 
+/-- Angle addition (`G(θ₁)·G(θ₂) = G(θ₁+θ₂)` on rational points of the circle: `(c,s)·(c',s') = (cc'−ss', cs'+sc')`)
+for the one-parameter gate families of the Model: `FSWAP**t`, `Rxxyy`, `Ryxxy`, `Rzz`, `rot11`. -/
+theorem gates_angle_addition (c s c' s' : Rat) :
+    Mat.mul (rxxyy c s) (rxxyy c' s') = rxxyy (c * c' - s * s') (c * s' + s * c') ∧
+    Mat.mul (ryxxy c s) (ryxxy c' s') = ryxxy (c * c' - s * s') (c * s' + s * c') ∧
+    Mat.mul (rzz c s) (rzz c' s') = rzz (c * c' - s * s') (c * s' + s * c') ∧
+    Mat.mul (rot11 c s) (rot11 c' s') = rot11 (c * c' - s * s') (c * s' + s * c') := by
+  unfold rxxyy ryxxy rzz rot11
+  refine ⟨?_, ?_, ?_, ?_⟩ <;> mat_unfold <;> mat_entries
+
+/-- …and for `FSWAP**t` (exponent additivity `FSWAP**t₁ · FSWAP**t₂ = FSWAP**(t₁+t₂)`) -/
+theorem fswapPow_angle_addition (c s c' s' : Rat) (h : c * c + s * s = 1) (h' : c' * c' + s' * s' = 1) :
+    Mat.mul (fswapPow c s) (fswapPow c' s') = fswapPow (c * c' - s * s') (c * s' + s * c') := by
+  unfold fswapPow
+  mat_unfold
+  mat_entries
 /-- `QuadraticFermionicSimulationGate._decompose_` equals the gate:
 `CZ**(-w1 t/π) · Z₀**θ · ISWAP**(-r t) · Z₀**(-θ)` is `exp(-i t H)` for every phase `u = e^{iπθ}`. -/
 theorem quadratic_decomposition (c0 s0 c1 s1 : Rat) (u : GQ) (hu : u * GQ.conj u = 1) :
@@ -412,6 +488,35 @@ theorem double_excitation_spectral (c s : Rat) :
   mat_unfold
   mat_entries
 
+/-- `QuadraticFermionicSimulationGate.fswap`: conjugating the gate by FSWAP is the gate with `w0 ↦ w̄0` (the weight
+update the code performs), for all parameters. -/
+theorem quadratic_fswap_rule (c0 s0 c1 s1 : Rat) (u : GQ) :
+    Mat.mul fswap (Mat.mul (quadratic c0 s0 u c1 s1) (Mat.dagger fswap)) = quadratic c0 s0 (GQ.conj u) c1 s1 := by
+  unfold fswap quadratic
+  mat_unfold
+  mat_entries
+
+/-- the Model matrix of the quadratic gate is unitary -/
+theorem quadratic_unitary (c0 s0 c1 s1 : Rat) (u : GQ) (h0 : c0 * c0 + s0 * s0 = 1) (h1 : c1 * c1 + s1 * s1 = 1)
+    (hu : u * GQ.conj u = 1) :
+    Mat.mul (quadratic c0 s0 u c1 s1) (Mat.dagger (quadratic c0 s0 u c1 s1)) = Mat.identity 4 := by
+  have hre : u.re * u.re + u.im * u.im = 1 := by
+    have := congrArg GQ.re hu; simp [GQ.conj] at this; linarith
+  rw [identity4]
+  unfold quadratic id4
+  mat_unfold
+  mat_entries
+  all_goals try linear_combination h0 + (s0 * s0) * hre
+/-- `CubicFermionicSimulationGate.fswap(0)` / `fswap(1)`: conjugating the generator by FSWAP on qubits (0,1) resp.
+(1,2) gives the generator with the weights `(−w1, −w0, w̄2)` resp. `(w̄0, −w2, −w1)` — the update rules of the code. -/
+theorem cubic_fswap_rules (w0 w1 w2 : GQ) :
+    Mat.mul fswap01 (Mat.mul (cubicGenerator w0 w1 w2) (Mat.dagger fswap01))
+      = cubicGenerator (-w1) (-w0) (GQ.conj w2) ∧
+    Mat.mul fswap12 (Mat.mul (cubicGenerator w0 w1 w2) (Mat.dagger fswap12))
+      = cubicGenerator (GQ.conj w0) (-w2) (-w1) := by
+  rw [cubicGenerator_lit, cubicGenerator_lit, cubicGenerator_lit]
+  unfold fswap01 fswap12
+  refine ⟨?_, ?_⟩ <;> mat_unfold <;> mat_entries
 /-- Eigen-structure of the cubic gate for general weights, without eigenvalues: the 3×3 block `M` that
 `_eigen_components` hands to `numpy.linalg.eigh` is Hermitian and satisfies its characteristic equation
 `M³ = (|w0|²+|w1|²+|w2|²)·M + 2Re(w0 w̄1 w2)·1`, so `exp(−itM)` is a polynomial of degree ≤ 2 in `M` with
